@@ -71,6 +71,20 @@ def run(ctx: Ctx):
         n = 70 if ctx.quick else 1000
         cases = [X.gen_case(ctx.rng, "sqlite" if i % 3 == 2 else "duckdb") for i in range(n)]
 
+    # dedicated replay of the recorded finding (kept out of the ordinary stream)
+    if not ctx.replay:
+        try:
+            rep, counts, want = X.replay_witness()
+            ctx.cov["witness_random_alias"] = {"counts_over_identical_calls": counts, "predict": want}
+            if rep:
+                ctx.violation("blocking analysis registers tables under random aliases: for a rule not symmetric in l/r in a job "
+                              f"with >= 2 tables identical calls report {sorted(set(counts))} while predict() scores {want}",
+                              {"case": X.WITNESS, "implementation": {"post_filter_counts": counts}, "specification": {"predict": want}},
+                              {"asymmetric_rule_multi_table": True, "kind": "orientation", "link_type": "link_and_dedupe"})
+            ctx.expect_known("KF-C14-asymmetric-rule-random-alias", rep, "identical calls now agree with predict()")
+        except Exception:
+            ctx.log("witness replay raised", traceback.format_exc()[-800:])
+
     terms, owners, labels = [], [], []
     reported, found_any = set(), False
     split_fail = []
